@@ -46,12 +46,12 @@ LPass(T, L, I, r) == LOutcome(T, L, I, r).pass
 LayerOf(T, L, m) == IF \E n \in DOMAIN L : m \in LSet(T, L, n)
                     THEN CHOOSE n \in DOMAIN L : m \in LSet(T, L, n) ELSE ""
 
-\* domain of C05: all listed modules exist and are pairwise unrelated (within and across layers)
+\* domain of C05: all listed modules exist and modules of DIFFERENT layers are unrelated.  Inside one layer a module may
+\* be listed next to one of its own descendants: redundant, the layer is the union of the sub trees either way.
 Listed(L) == UNION {L[n] : n \in DOMAIN L}
 LayersWF(T, L) == /\ Listed(L) \subseteq T
                   /\ \A n \in DOMAIN L : L[n] # {}
-                  /\ \A m1, m2 \in Listed(L) : m1 # m2 => ~Related(m1, m2)
-                  /\ \A n1, n2 \in DOMAIN L : n1 # n2 => L[n1] \cap L[n2] = {}
+                  /\ \A n1, n2 \in DOMAIN L : n1 # n2 => \A m1 \in L[n1], m2 \in L[n2] : ~Related(m1, m2)
 LRuleWF(L, r) == r.sub \in DOMAIN L /\ r.objs \subseteq DOMAIN L /\ (r.any \/ (r.objs # {} /\ r.sub \notin r.objs))
 
 \* the architecture with every layer the rule does not mention removed: must give the same outcome
